@@ -40,6 +40,7 @@ type Type struct {
 	Raw     string  // KRaw: the Go expression (main-package view)
 	RawDecl string  // KRaw: declarations to add to types.go (may be empty)
 	BaseVar string  // KRaw: expected variable base name (informational)
+	RawNames []string // KRaw: distinctive identifiers occurring in the expression
 }
 
 type Field struct {
